@@ -52,6 +52,29 @@ def diverges_err(body, variant_suffix=None):
     return False
 
 
+def dollar_literals(F, f, depth=2, seen=None):
+    """string literals starting with `$` in f, in the constants it names and in the local functions it calls (a table of
+    prefixes kept in a `const`, a helper that tests them)"""
+    seen = seen if seen is not None else set()
+    out = set()
+    if f is None or "body" not in f or f["path"] in seen:
+        return out
+    seen.add(f["path"])
+    for n in walk(f["body"]):
+        if n.get("k") == "Lit" and n.get("lk") == "str" and str(n.get("v", "")).startswith("$"):
+            out.add(n["v"])
+        if depth > 0:
+            tgt = None
+            if n.get("k") == "Path" and n.get("res") in ("def", None) and n.get("path"):
+                tgt = F.fns.get(n["path"]) or F.fns.get(norm(n["path"]))
+            elif n.get("k") in ("Call", "MCall"):
+                c = n.get("resolved") or n.get("callee")
+                tgt = F.fns.get(c) if c else None
+            if tgt is not None and tgt.get("file") == f.get("file"):
+                out |= dollar_literals(F, tgt, depth - 1, seen)
+    return out
+
+
 def check(F, R):
     t_map_comparison(F, R)
     t_map_direction(F, R)
@@ -307,10 +330,9 @@ def tableau_readback(F, R):
             a = strip(n["args"][0])
             if a.get("k") == "Lit":
                 stripped.add(a["v"])
-    # every other `$..` literal of the function is a prefix it tests for (directly, or through a list of prefixes)
-    for n in walk(f["body"]):
-        if n.get("k") == "Lit" and n.get("lk") == "str" and str(n.get("v", "")).startswith("$") and n["v"] not in stripped:
-            dropped.add(n["v"])
+    # every other `$..` literal the function reaches is a prefix it tests for (directly, through a list of prefixes, a
+    # constant or a helper)
+    dropped = {v for v in dollar_literals(F, f) if v not in stripped}
     R.table("tableau_dropped_prefixes", sorted(dropped))
     # the prefixes are read off `name.starts_with("..")` tests; written another way (a table of prefixes, a helper) they
     # are not seen: undecided.  A recognised but different set is evidence.
